@@ -2,7 +2,7 @@
     Model: FV.Sched.  Only statements here; proofs in FVP.Sched_proofs. *)
 From Coq Require Import List ZArith Bool.
 From FV Require Import Base Sched.
-From FVP Require Import Adapters_proofs Sched_proofs Confluence_proofs Termination_proofs.
+From FVP Require Import Adapters_proofs Sched_proofs Confluence_proofs Termination_proofs ConnectPhase_proofs.
 Import ListNotations.
 Open Scope Z_scope.
 
@@ -94,6 +94,21 @@ Proof.
   destruct o; congruence.
 Qed.
 
+(** The connect phase (model of the harness compositions: [published], [connect_stuck]): every member of a cycle
+    of components that provide their initial data only after their initial pulls — each pulling from another
+    member — is in the list of stuck components connect() must report, whatever else the composition contains;
+    and when no component waits, nothing is stuck. *)
+Theorem C04_connect_cycle_reported :
+  forall cs paps cyc, wait_cycle cs paps cyc -> forall k, In k cyc -> In k (connect_stuck cs paps).
+Proof. exact wait_cycle_stuck. Qed.
+
+Theorem C04_connect_no_false_report :
+  forall cs paps,
+    (forall k, (k < length cs)%nat -> waits cs paps k = false) ->
+    (forall k j, (k < length cs)%nat -> In j (srcs_of (getc cs k)) -> (j < length cs)%nat) ->
+    connect_stuck cs paps = [].
+Proof. exact no_wait_all_connected. Qed.
+
 (** Non-vacuity.  Ring of three with steps 10 / 1 / 3 (sum 14): delays 6+5 on one link, 3 on another, 0 on
     the third — no single link covers its consumer's step, the potential is not constant. *)
 Definition ex_ring3 : composition :=
@@ -105,6 +120,21 @@ Definition ex_phi (c : nat) : Z := match c with 0%nat => 0 | 1%nat => 2 | _ => -
 Definition ex_und : composition :=
   [ mkC (KTime 0 [2] false) 1 [ mkIn (1, 0)%nat [APass] ];
     mkC (KTime 0 [3] false) 1 [ mkIn (0, 0)%nat [] ] ].
+
+Definition ex_wait : composition :=
+  [ mkC (KTime 0 [2] true) 1 [ mkIn (1, 0)%nat [] ];
+    mkC (KTime 0 [3] true) 1 [ mkIn (0, 0)%nat []; mkIn (2, 0)%nat [] ];
+    mkC (KTime 0 [1] false) 1 [] ].
+
+Example C04_connect_nonvacuous :
+  wait_cycle ex_wait [true; true; false] [0; 1]%nat /\ connect_stuck ex_wait [true; true; false] = [0; 1]%nat
+  /\ connect_stuck ex_wait [true; false; false] = [].
+Proof.
+  split; [|split; vm_compute; reflexivity].
+  split; [discriminate|]. intros k [<-|[<-|[]]]; (split; [simpl; Lia.lia|]); (split; [reflexivity|]).
+  - exists 1%nat. simpl. auto.
+  - exists 0%nat. simpl. auto.
+Qed.
 
 Example C04_nonvacuous :
   wf ex_ring3 /\ sufficient ex_ring3 ex_phi (fun _ => O) /\
@@ -140,3 +170,5 @@ Print Assumptions C04_delay_per_link.
 Print Assumptions C04_cycle_detected.
 Print Assumptions C04_resolved_cycles_complete.
 Print Assumptions C04_cycle_reported.
+Print Assumptions C04_connect_cycle_reported.
+Print Assumptions C04_connect_no_false_report.
